@@ -230,7 +230,9 @@ type scalarField struct {
 var c02Scalars = []scalarField{
 	{"maintainer", func(c *model.MetaCfg, v string) { c.Maintainer = v + " <m@example.com>" }},
 	{"vendor", func(c *model.MetaCfg, v string) { c.Vendor = v }},
-	{"homepage", func(c *model.MetaCfg, v string) { c.Homepage = "https://example.com/" + strings.ReplaceAll(v, " ", "_") }},
+	{"homepage", func(c *model.MetaCfg, v string) {
+		c.Homepage = "https://example.com/" + strings.ReplaceAll(v, " ", "_")
+	}},
 	{"license", func(c *model.MetaCfg, v string) { c.License = v }},
 	{"section", func(c *model.MetaCfg, v string) { c.Section = v }},
 	{"priority", func(c *model.MetaCfg, v string) { c.Priority = v }},
@@ -369,12 +371,18 @@ func enumC02(env *engine.Env, yield func(any) bool) {
 	// (f) extras
 	extras := []func(c *model.MetaCfg){
 		func(c *model.MetaCfg) { c.RPMPrefixes = []string{"/usr", "/opt/app"} },
-		func(c *model.MetaCfg) { c.IPKAlts = []model.IPKAlt{{Priority: 10, Target: "/usr/bin/app", LinkName: "/usr/bin/a"}, {Priority: 20, Target: "/usr/bin/app2", LinkName: "/usr/bin/b"}} },
+		func(c *model.MetaCfg) {
+			c.IPKAlts = []model.IPKAlt{{Priority: 10, Target: "/usr/bin/app", LinkName: "/usr/bin/a"}, {Priority: 20, Target: "/usr/bin/app2", LinkName: "/usr/bin/b"}}
+		},
 		func(c *model.MetaCfg) { c.IPKTags = []string{"tag1", "tag2"} },
 		func(c *model.MetaCfg) { c.IPKEssential = true },
 		func(c *model.MetaCfg) { c.IPKAuto = true },
-		func(c *model.MetaCfg) { c.IPKFields = map[string]string{"Source": "https://src.example", "X-Custom": "custom value", "Version": "9.9.9", "depends": "sneaky"} },
-		func(c *model.MetaCfg) { c.DebFields = map[string]string{"Bugs": "https://bugs.example", "X-Custom": "custom value", "Empty": ""} },
+		func(c *model.MetaCfg) {
+			c.IPKFields = map[string]string{"Source": "https://src.example", "X-Custom": "custom value", "Version": "9.9.9", "depends": "sneaky"}
+		},
+		func(c *model.MetaCfg) {
+			c.DebFields = map[string]string{"Bugs": "https://bugs.example", "X-Custom": "custom value", "Empty": ""}
+		},
 		func(c *model.MetaCfg) {
 			c.DebTriggers = map[string][]string{"interest": {"trig-a", "trig-b"}, "interest_await": {"trig-c"}, "interest_noawait": {"trig-d"}, "activate": {"trig-e"}, "activate_await": {"trig-f"}, "activate_noawait": {"trig-g"}}
 		},
